@@ -12,12 +12,13 @@ documented first-arrival-time field  t(q) = t_d + ‖q - x_d‖ / D  of
 * the partial derivatives exist away from the detonator (generated certificates) and the
   gradient has magnitude 1/D                                 (`k1dN_gradient`).
 
-Admissibility is what the constructor documents and enforces: D > 0 (`k1dN_outcome`).
+Admissibility is what the constructor documents and enforces: D > 0 (`EPV.Burn.k1dN_outcome`); the
+bridge to the documented formula is `EPV.Burn.k1dN_eq_cone` (EPV/Lemmas/BurnK1.lean).
 -/
 import EPV.Gen.K1d2D
 import EPV.Gen.K1d3D
 import EPV.Spec.Burn
-import EPV.Lemmas.BurnModels
+import EPV.Lemmas.BurnK1
 import EPV.Tactics
 
 set_option linter.all false
